@@ -45,6 +45,8 @@ func execCase(c *wire.Case) (res *wire.Result) {
 		opCompileFile(c, res)
 	case "jsonscan":
 		opJSONScan(c, res)
+	case "bigwindows":
+		opBigWindows(c, res)
 	case "run", "json":
 		opRun(c, res)
 	case "astcmp":
@@ -1140,4 +1142,77 @@ func countFds() int {
 		return -1
 	}
 	return len(es)
+}
+
+// opBigWindows: result lists too long to ship (millions of matches). Srcs[0] is the `all` form of a command, the other
+// sources the same command under other amount clauses; Calls[k] = {Prog: source index, Text: lo, G: hi} says which
+// slice [lo,hi) of the `all` result that source must return. Everything is compared inside the worker, match by
+// match, every field; Seed is the number of matches the `all` form must find.
+func opBigWindows(c *wire.Case, res *wire.Result) {
+	res.Counters = map[string]int{}
+	text := string(c.Texts[0])
+	run := func(src []byte) (engine.Matches, string) {
+		v, err := libvore.Compile(string(src))
+		if err != nil {
+			return nil, "compile: " + err.Error()
+		}
+		var ms engine.Matches
+		var p any
+		func() {
+			defer func() { p = recover() }()
+			ms = v.Run(text)
+		}()
+		if p != nil {
+			return nil, fmt.Sprint("panic: ", p)
+		}
+		return ms, ""
+	}
+	all, e := run(c.Srcs[0])
+	if e != "" {
+		res.Mismatch = "all: " + e
+		return
+	}
+	res.Counters["matches_of_all"] = len(all)
+	if uint64(len(all)) != c.Seed {
+		res.Mismatch = fmt.Sprintf("the all form returned %d matches, the text holds %d", len(all), c.Seed)
+		return
+	}
+	same := func(a, b *engine.Match) bool {
+		return a.MatchNumber == b.MatchNumber && a.Offset == b.Offset && a.Line == b.Line && a.Column == b.Column && a.Value == b.Value && a.Filename == b.Filename &&
+			a.Replacement.GetValueOrDefault("\x00none") == b.Replacement.GetValueOrDefault("\x00none")
+	}
+	for _, cl := range c.Calls {
+		w, e := run(c.Srcs[cl.Prog])
+		if e != "" {
+			res.Mismatch = fmt.Sprintf("%s: %s", c.Srcs[cl.Prog], e)
+			return
+		}
+		lo, hi := cl.Text, cl.G
+		if len(w) != hi-lo {
+			res.Mismatch = fmt.Sprintf("%s returned %d matches, the window [%d,%d) of the all result has %d (first returned: #%d, last: #%d)", c.Srcs[cl.Prog], len(w), lo, hi, hi-lo, firstNum(w), lastNum(w))
+			return
+		}
+		for k := range w {
+			if !same(&w[k], &all[lo+k]) {
+				res.Mismatch = fmt.Sprintf("%s: element %d is match #%d [%d,%d), the all result has #%d [%d,%d) there", c.Srcs[cl.Prog], k, w[k].MatchNumber, w[k].Offset.Start, w[k].Offset.End, all[lo+k].MatchNumber, all[lo+k].Offset.Start, all[lo+k].Offset.End)
+				return
+			}
+		}
+		res.Counters["windows_compared"]++
+		res.Counters["matches_compared"] += len(w)
+	}
+}
+
+func firstNum(ms engine.Matches) int {
+	if len(ms) == 0 {
+		return -1
+	}
+	return ms[0].MatchNumber
+}
+
+func lastNum(ms engine.Matches) int {
+	if len(ms) == 0 {
+		return -1
+	}
+	return ms[len(ms)-1].MatchNumber
 }
